@@ -1049,11 +1049,23 @@ def record_site(r):
 def check(pid, tier):
     rep = Report(pid, tier, "model_checking")
     try:
-        return _check(rep, tier)
+        rc = _check(rep, tier)
     except Exception:
         if rep.violations:          # never lose what was already found
             rep.finish()
         raise
+    if rc == 0:
+        cleanup()
+    return rc
+
+
+def cleanup():
+    """remove this process's TLC / record scratch directories (kept when something was reported, for inspection)"""
+    import glob
+    import shutil
+    from ..common import WORK
+    for d in glob.glob(os.path.join(WORK, "tlc", f"*{TAG}*")) + glob.glob(os.path.join(WORK, "records", f"*{TAG}*")):
+        shutil.rmtree(d, ignore_errors=True)
 
 
 def _check(rep, tier):
